@@ -42,7 +42,7 @@ EVAL_OPS = [
     ("pdf", 5), ("cdf", 0.5), ("marginal_pdf", 1.2), ("marginal_cdf", 0.8), ("marginal_icdf", 1.2), ("conditional_cdf", 1.5), ("conditional_icdf", 1.5), ("dist_icdf", 1.5), ("dist_pdf", 1.5),
     ("draw_int", 3), ("draw_gen", 2), ("iform", 3), ("isorm", 2), ("hdc", 1.5), ("hdc_small", 0.8), ("direct", 1.5), ("and", 1), ("or", 1), ("design", 1.5), ("design_twice", 1.0),
     ("plot_contour", 2), ("plot_iso", 0.8), ("plot_dep", 1.2), ("plot_mq", 0.5), ("plot_hist", 0.8), ("save", 1.5), ("slice", 1.5),
-    ("touch_returned", 1.5), ("deepcopy_eval", 1.0), ("repr", 0.5),
+    ("touch_returned", 1.5), ("deepcopy_eval", 1.0), ("repr", 0.5), ("custom_template_fit", 0.7),
 ]
 # operations that legitimately draw from the global RNG (no seed can be passed to them)
 GLOBAL_RNG_USERS = {"plot_mq", "marginal_icdf", "and", "or"}  # Monte-Carlo inside, no seed parameter
@@ -434,6 +434,34 @@ def run_op(slot, op, root):
         d = arr(slot.data[:, j].copy())
         sl, refs, bnd = base.interval_slicers[j].slice_(d)
         return [np.array([int(np.sum(s)) for s in sl]), np.asarray(refs, dtype=float), np.asarray(bnd, dtype=float)], inputs
+    if name == "custom_template_fit":
+        # a user-defined distribution (public base class) that keeps its parameters in a dict and
+        # updates it in place, used as the template of a conditional dimension
+        import scipy.stats as sts
+        from virocon import DependenceFunction, GlobalHierarchicalModel, NormalDistribution, WeibullDistribution, WidthOfIntervalSlicer
+
+        class TableNormal(NormalDistribution):
+            def __init__(self, mu=0, sigma=1, f_mu=None, f_sigma=None):
+                self.table = {"mu": mu if f_mu is None else f_mu, "sigma": sigma if f_sigma is None else f_sigma}
+                self.f_mu, self.f_sigma = f_mu, f_sigma
+
+            mu = property(lambda self: self.table["mu"], lambda self, v: self.table.__setitem__("mu", v))
+            sigma = property(lambda self: self.table["sigma"], lambda self, v: self.table.__setitem__("sigma", v))
+
+        def lin(x, a=1.0, b=0.1):
+            return a + b * x
+
+        n = 800
+        x0 = sts.weibull_min.ppf(rng.uniform(0.001, 0.999, n), 1.8, scale=2.5)
+        x1 = sts.norm.ppf(rng.uniform(0.001, 0.999, n), loc=4.0 + 0.5 * x0, scale=1.0 + 0.1 * x0)
+        tmpl = TableNormal(mu=5.0, sigma=2.0)
+        gm = GlobalHierarchicalModel([
+            {"distribution": WeibullDistribution(), "intervals": WidthOfIntervalSlicer(width=1.0, min_n_points=30)},
+            {"distribution": tmpl, "conditional_on": 0, "parameters": {"mu": DependenceFunction(lin), "sigma": DependenceFunction(lin, bounds=[(0, None), (None, None)])}},
+        ])
+        gm.fit(np.column_stack([x0, x1]))
+        per = gm.distributions[1].distributions_per_interval
+        return [[float(tmpl.mu), float(tmpl.sigma)], [float(d_.mu) for d_ in per], len({id(d_.table) for d_ in per} | {id(tmpl.table)}) - len(per) - 1], inputs
     if name == "t_iform":
         c = v.IFORMContour(m, 0.2, n_points=4)
         return np.asarray(c.coordinates, dtype=float), inputs
@@ -637,6 +665,12 @@ def execute_universe(scen, only_slot=None, run=None):
                             run.violate("I1-caller-array-modified", f"{op['op']}/{what}", {"slot": s, "kind": slot.spec["kind"], "shape_before": list(shp), "shape_after": list(a.shape), "step": k})
                             return digests
             digests[k] = results[0]
+            if checking and op["op"] == "custom_template_fit" and exc is None:
+                tm_, mus_, shared_ = res
+                run.count("probe:user-defined-template-with-a-parameter-table")
+                if tm_ != [5.0, 2.0] or shared_ != 0 or len(set(mus_)) < 2:
+                    run.violate("I2-fit-alters-template", "user-defined-distribution", {"template_after_fit": tm_, "as_constructed": [5.0, 2.0], "interval_distributions_sharing_a_table": -shared_, "distinct_interval_means": len(set(mus_)), "step": k})
+                    return digests
             if checking and rng_touched:
                 # an evaluation that was given a seed, or that involves no sampling at all, has no business
                 # with NumPy's process-wide legacy RNG: re-seeding or consuming it changes what the caller's
